@@ -37,9 +37,14 @@ func rangeViolation(p *Pair, cs []*fakepg.Commit, lo, hi uint64) string {
 	return ""
 }
 
-func c06Property(rt *rapid.T, ev *evid.Rec) {
+func c06Property(rt *rapid.T, ev *evid.Rec, deps bool) {
 	o := machineOpts{MaxDecls: 2, Kinds: []string{"log", "tx"}, MaxBatch: 8, MaxConc: 3, InitBlocks: [2]int{2, 9},
 		Starts: []string{"zero", "one", "mid", "mid", "above"}, Stops: true}
+	if deps {
+		// integrations with filter references: the dependency position caps the target as well
+		o.CustomDecls = c05Decls
+		o.Starts = []string{"one", "mid", "mid"}
+	}
 	m := newMachine(rt, o)
 	defer m.Close()
 	w := m.w
@@ -79,6 +84,7 @@ func c06Property(rt *rapid.T, ev *evid.Rec) {
 		if v := rangeViolation(p, r.Commits, lo, p.Stop); v != "" {
 			fail("%s: %s", p.Key(), v)
 		}
+		dependant := len(refsOf(p.Decl)) > 0
 		if v := checkStepC01(m, p, r); v != "" {
 			fail("%s", v)
 		}
@@ -97,8 +103,10 @@ func c06Property(rt *rapid.T, ev *evid.Rec) {
 					straddle = true
 				}
 			}
-			if v := w.CheckPair(p); v != "" {
-				fail("after a successful step: %s", v)
+			if !dependant {
+				if v := w.CheckPair(p); v != "" {
+					fail("after a successful step: %s", v)
+				}
 			}
 		}
 		if p.Start > 0 && !r.Before.OK && len(r.Heads) == 0 && r.Err != nil {
@@ -136,6 +144,13 @@ func c06Property(rt *rapid.T, ev *evid.Rec) {
 	for _, p := range w.Pairs {
 		cur := w.Cursor(p)
 		head := p.Src.Node.Chain.Head().Num
+		if deps && len(refsOf(p.Decl)) > 0 {
+			// a dependant ends where the slowest referenced integration ends; only the range is claimed here
+			if cur.OK && p.Stop > 0 && cur.Num > p.Stop {
+				fail("at quiescence %s is at %d beyond its stop %d", p.Key(), cur.Num, p.Stop)
+			}
+			continue
+		}
 		switch {
 		case p.Start > head+1:
 			if cur.OK {
@@ -158,8 +173,10 @@ func c06Property(rt *rapid.T, ev *evid.Rec) {
 				fail("at quiescence %s is at %s, head is %d", p.Key(), curStr(cur), head)
 			}
 		}
-		if v := w.CheckPair(p); v != "" {
-			fail("at quiescence: %s", v)
+		if len(refsOf(p.Decl)) == 0 {
+			if v := w.CheckPair(p); v != "" {
+				fail("at quiescence: %s", v)
+			}
 		}
 		// table min/max
 		for _, r := range w.TableRows(p) {
@@ -186,5 +203,12 @@ func c06Property(rt *rapid.T, ev *evid.Rec) {
 
 func TestC06_Range(t *testing.T) {
 	ev := evid.For("C06", "Range")
-	rapid.Check(t, func(rt *rapid.T) { c06Property(rt, ev) })
+	rapid.Check(t, func(rt *rapid.T) { c06Property(rt, ev, false) })
+}
+
+// TestC06_RangeWithReferences: the same range rules for integrations whose
+// target is also capped by the integrations they reference.
+func TestC06_RangeWithReferences(t *testing.T) {
+	ev := evid.For("C06", "RangeWithReferences")
+	rapid.Check(t, func(rt *rapid.T) { c06Property(rt, ev, true) })
 }
